@@ -79,6 +79,27 @@ class RealDecider:
             return f'{len(new)}-notifications'
         return f"{self.show_notif(new[0])} | {self.table()}"
 
+    def do_quiet(self, line: str) -> None:
+        """the same operation WITHOUT looking at the decider afterwards: `table()` serialises every run, and a look is not
+        always harmless (state kept lazily, copy-on-write shortcuts reset by an accessor)."""
+        w = line.split()
+        try:
+            if w[0] == 'ev':
+                self.dec.on_receiver_update(pl.mk_event(w[1], int(w[2]), w[3], int(w[4])))
+                self.dec.update()
+            elif w[0] == 'rem':
+                lists = {'C': [], 'H': [], 'U': []}
+                cur = 'C'
+                for x in w[1:]:
+                    if x in lists:
+                        cur = x
+                    else:
+                        lists[cur].append(x)
+                self.dec.on_distributed_update([pl.parse_rec(r) for r in lists['C']], [pl.parse_rec(r) for r in lists['H']],
+                                               [pl.parse_rec(r) for r in lists['U']])
+        except Exception:   # noqa: exceptions are the observed run's business
+            pass
+
     def snap(self) -> str:
         c, h, u = self.dec.snapshot()
         return f'C{pl.show_recs(c)} H{pl.show_recs(h)} U{pl.show_recs(u)}'
